@@ -1033,7 +1033,7 @@ class PortSegment(CIPSegment):
         else:
             port = segment.port
         if isinstance(segment.link_address, str):
-            if segment.link_address.isnumeric():
+            if segment.link_address.isascii() and segment.link_address.isdigit():
                 link = USINT.encode(int(segment.link_address))
             else:
                 ipaddress.ip_address(segment.link_address)
